@@ -65,7 +65,7 @@ BAD_CONSTRAINTS = {
 }
 
 
-def corruptions(rng, schema, k=3):
+def corruptions(rng, schema, k=3, extra_bad=None):
     """up to k single-point corruptions: (kind, path, corrupted_schema)"""
     out = []
     positions = list(rule_sets(schema))
@@ -78,7 +78,9 @@ def corruptions(rng, schema, k=3):
         target = _follow(s, path)
         if kind == 'unknown_rule':
             # the unknown name need not be a string
-            target[rng.choice(['no_such_rule', 'no_such_rule', 'no such rule', 7, None, ('type',), 1.5, True])] = 1
+            # ... nor a name of the class at all: `logical` is a rule of the internal schema validator only
+            name = rng.choice(['no_such_rule', 'no_such_rule', 'no such rule', 'logical', 'logical', 7, None, ('type',), 1.5, True])
+            target[name] = 'anyof' if name == 'logical' else 1
         elif kind == 'unknown_type':
             target['type'] = rng.choice(['no_such_type', ['string', 'no_such_type'], [['string', 'integer']], [1], ['string', 2]])
         elif kind == 'unknown_name':
@@ -88,6 +90,8 @@ def corruptions(rng, schema, k=3):
                 r = 'check_with'
             good = {'check_with': families.k_pass, 'coerce': families.c_id, 'rename_handler': families.c_id}.get(r)
             bad = 'no_such_' + r
+            if r == 'check_with' and rng.random() < 0.4:
+                bad = rng.choice(['bulk_schema', 'items', 'schema', 'dependencies'])     # checkers of the internal schema validator only
             if r == 'default_setter' or rng.random() < 0.4:
                 target[r] = bad
             else:
@@ -97,7 +101,12 @@ def corruptions(rng, schema, k=3):
             r = rng.choice(present) if present and rng.random() < 0.7 else rng.choice(sorted(BAD_CONSTRAINTS))
             if ctx == 'of' and r in Validator.normalization_rules:
                 r = 'minlength'
-            target[r] = copy.deepcopy(BAD_CONSTRAINTS[r])
+            if extra_bad and rng.random() < 0.35:
+                # a rule that only the class under test defines, with a constraint its declared schema forbids
+                r = rng.choice(sorted(extra_bad))
+                target[r] = copy.deepcopy(extra_bad[r])
+            else:
+                target[r] = copy.deepcopy(BAD_CONSTRAINTS[r])
         elif kind == 'forbidden_in_of':
             ofpos = [p for p in positions if p[2] == 'of']
             if not ofpos:
